@@ -332,4 +332,9 @@ pub struct RunSpec {
     pub cfg: Config,
     pub ops: Vec<Op>,
     pub faults: Vec<Fault>,
+    /// None: the operations are one history. Some("enum-chains") / Some("enum-prefixes"):
+    /// the operations build a state, and an enumerated family of continuations is applied to
+    /// it, each from a rebuilt copy (faults[0].at then selects one continuation for replay).
+    #[serde(default)]
+    pub mode: Option<String>,
 }
